@@ -77,7 +77,7 @@ def main(argv=None):
             f["first"]["sg"], f["first"]["what"]))
     print("schedule selftest: latent=%d drift=%d" % (out["counters"]["latent"], out["counters"]["drift"]))
     os.makedirs(EVIDENCE, exist_ok=True)
-    with open(os.path.join(EVIDENCE, "Schedule-selftest.json"), "w") as f:
+    with open(os.path.join(os.environ.get("VERIF_TMP", "/var/tmp"), "Schedule-selftest.json"), "w") as f:   # not an evidence file of a property
         json.dump(dict(out, first_findings=[{"kind": x["kind"], "pred": x["pred"], "what": x["what"], "sg": x["sg"],
                                              "net": jobs[x["record"]]["net"], "opts": jobs[x["record"]]["opts"],
                                              "event": x["event"]} for x in raw[:10]]), f, indent=1, default=str)
